@@ -1,5 +1,6 @@
 """Configuration of the C15 check (see lib/props.py)."""
 P = {'id': 'C15',
+ 'coq_deps': ['C01', 'C02', 'C19'],
  'level': 'proof',
  'theorems': ['parser_total',
               'leb128_decode_total',
@@ -14,36 +15,63 @@ P = {'id': 'C15',
               'length_prefixed_read_total',
               'vec_u32_decode_total',
               'hex_decode_total',
-              'hex_decode_to_slice_total'],
- 'trusted': ['modelled (M+S, 39 entry points): src/io/var_int.rs (VarInt::decode, decode_multiple, SignedVarInt::decode_signed), src/io/var_int_variants.rs '
+              'hex_decode_to_slice_total',
+              'sorted_uint_vec_load_total',
+              'sorted_uint_vec_get_total',
+              'sorted_uint_vec_unfixed_refuted',
+              'zip_offset_load_total',
+              'zip_offset_get_total',
+              'length_prefixed_read_bounded',
+              'length_prefixed_read_regressed_refuted',
+              'huffman_deserialize_total',
+              'huffman_decode_total',
+              'huffman_unfixed_refuted',
+              'rans_decode_total',
+              'fse_decode_total',
+              'fse_fastdiv_unfixed_refuted',
+              'mmap_vec_open_total',
+              'reorder_map_open_total',
+              'dictionary_deserialize_total',
+              'simd_lz77_decompress_total',
+              'hex_decode_str_total',
+              'base64_decode_total'],
+ 'trusted': ['modelled (M+S, 39 entry points of the first development): src/io/var_int.rs (VarInt::decode, decode_multiple, SignedVarInt::decode_signed), src/io/var_int_variants.rs '
              '(decode_u64 / decode_i64 / decode_u64_sequence / decode_i64_sequence for all 7 strategies, incl. check_sequence_count), src/entropy/dictionary.rs '
              '(DictionaryCompressor::decompress and OptimizedDictionaryCompressor::decompress: flag format, back-reference and size-limit checks; the model tracks '
              'the output length, not its contents), src/compression/dict_zip/compression_types.rs (BitReader, decode_variable_length, decode_match incl. validate, '
              'decode_matches), src/string/hex.rs (hex_decode_bytes, hex_decode_to_slice), src/io/data_input.rs (SliceDataInput read_var_int / read_length_prefixed_bytes incl. the chunked read_vec / skip / read_u8), src/io/smart_ptr.rs (Vec<u32>::deserialize)',
-             'oracle only (S-only, no mechanism model): HuffmanTree/HuffmanDecoder, ContextualHuffman (deserialize, decode order 0/1/2, decode_x1/2/4/8), FSE '
-             '(fse_decompress, remove_fse_compression), Rans64Decoder x1/x2/x4/x8, Dictionary::deserialize, the eight Compressor::decompress framings (none, lz4, '
-             'zstd, huffman, rans, dictionary, simd_lz77, hybrid), SimdLz77Compressor, PaZipCompressor::decompress, ZipOffsetBlobStore::load_from_reader (+get), SortedUintVec::from_bytes (+get/get2/get_block), '
-             'ZReorderMap::open, MmapVec::open, MmapDataInput, SliceDataInput, ComplexTypeSerializer (tuple, HashMap, HashSet, BTreeMap, BTreeSet, array, Option, '
-             'batch), SmartPtrSerializer (Box, Rc, Arc, Option<Box>), Vec<T> decoders, Base64 (4 configurations + base64_decode_simd), hex_decode(str)',
+             'modelled (M+S, extension, 48 further cells: 41 formerly oracle-only + 7 new DataInput cells): src/blob_store/sorted_uint_vec.rs (from_bytes, get, get2, get_block, extract_bits - one definition for the BEXTR / PEXT / portable paths), '
+             'src/blob_store/zip_offset.rs (FileHeader, load_from_reader, get; zstd records are WILD), src/io/data_input.rs read_vec with buffer growth on all four DataInput implementations, '
+             'src/entropy/huffman.rs (HuffmanTree::deserialize for an arbitrary HashMap insertion order, ContextualHuffmanEncoder::deserialize, HuffmanDecoder::decode, ContextualHuffmanDecoder::decode orders 0/1/2, decode_x1/2/4/8 - over the C01 models), '
+             'src/entropy/rans.rs (Rans64Decoder::decode 1/2/4/8 streams - over the C01 model), src/entropy/fse.rs (FseDecoder::decompress up to and including FseTable::new validation and FastDivision::new; the floating-point normaliser and the decoding loop behind it are not modelled: verdict "value or error"), '
+             'src/memory/mmap_vec.rs (MmapVecHeader::validate, MmapVec::open - over the C19 model), src/blob_store/reorder_map.rs (ZReorderMap::open + iteration - over the C19 model), '
+             'src/entropy/dictionary.rs (Dictionary::deserialize), src/compression/simd_lz77.rs (decompress: decode loop, reconstruct_from_matches, copy_backward_reference; output length only), '
+             'src/string/hex.rs (hex_decode(&str)), src/system/base64.rs (AdaptiveBase64::decode, 4 engines: a specification of the base64 crate behaviour the wrapper relies on)',
+             'oracle only (S-only, no mechanism model): ComplexTypeSerializer (12 cells), SmartPtrSerializer (4), Vec<Vec<String>>, read_string / String / Vec<String> / skip cells of the reader, range and mmap inputs, '
+             'SliceDataInput fixed-width reads and length-prefixed string, MmapDataInput, MemoryMappedInput, the eight Compressor::decompress framings (+4 single-symbol), PaZipCompressor::decompress, '
+             'remove_fse_compression, base64_decode_simd, simd_encoding (decode_varint, decode_varint_batch, decode_base64, decode_base64_from_buffer), SuffixArrayDictionary::deserialize, DfaCache::deserialize',
              'not covered: src/ffi/c_api.rs (exports no byte parser at the pinned commit; the `ffi` feature is not built), '
-             'zstd / lz4_flex / base64 crate internals (exercised through the wrappers only)',
-             'a panic is modelled where the checked (dev) profile panics: arithmetic overflow, out-of-range slice/index, capacity overflow; counters bounded by '
-             'the slice length are plain additions; memory safety of unsafe code is not modelled (observed by the oracle as SIGSEGV/SIGBUS only)'],
- 'assumptions': ['usize is 64 bits; inputs shorter than 2^60 bytes (beyond that count * 8 can exceed isize::MAX)',
+             'zstd / lz4_flex / base64 / bincode crate internals (exercised through the wrappers only)',
+             'a panic is modelled where the checked (dev) profile panics: arithmetic overflow, division by zero, out-of-range slice/index, capacity overflow; counters bounded by '
+             'the slice length are plain additions; memory safety of unsafe code is not modelled (observed by the oracle as SIGSEGV/SIGBUS only)',
+             'the decoder loops of the Huffman models run min(expected length, 8 * input + 1) times - what the code does when every symbol costs at least one bit (guaranteed by the constructors and, since fix 0fcb2c4, by deserialize); '
+             'a fuel-exhausted round-robin loop of decode_xN is reported as an error, not as non-termination'],
+ 'assumptions': ['usize is 64 bits; inputs shorter than 2^60 bytes (2^58 for ContextualHuffmanEncoder::deserialize; beyond that count * 8 resp. tree_count * 80 can exceed isize::MAX)',
+                 'byte strings are lists of numbers below 256 where a theorem says bytes_ok; trained tables are arbitrary up to the stated side condition (rANS: frequencies sum to at most 4096; contextual encoder: at least one tree, map indices below the tree count)',
                  'allocation accounting covers explicit reservations (with_capacity / vec![0; n] / reserve); growth by push is bounded through the proved output-length bounds',
                  'agreement of model and code is established on the generated cases only',
                  'oracle: a child process under RLIMIT_AS = 1 GiB and a per-case wall-clock limit stands for "does not abort, overflow the stack, loop forever or allocate without bound"'],
- 'level_text': 'Machine-checked Coq theorems about a Gallina restatement, in an outcome monad with an explicit Panic and allocation accounting, of 39 parser entry '
+ 'level_text': 'Machine-checked Coq theorems (33, all closed under the global context) about a Gallina restatement, in an outcome monad with an explicit Panic and allocation accounting, of the parsers behind 88 of the 147 oracle cells: first the 39 parser entry '
                'points (all varint decoders and count-prefixed sequence decoders, the dictionary/LZ decompressor, the PA-Zip bit reader and match decoder, hex, length-prefixed reads, Vec<u32>): '
                'for every byte string (< 2^60 bytes) and every argument the run is not a panic and reserves at most 8 bytes per input byte plus one 64 KiB chunk (parser_total), with '
                'per-parser output bounds; refutation theorems with concrete witnesses for the three code shapes that were repaired (sequence decoder without the '
-               'count check, LZ without the size limit, Far2Long `as u16 + 34`). The model is tied to the compiled code on every run by evaluating ~1500 generated '
-               'cases in Coq against what the implementation returned. All 122 parser cells - including those without a model - are decided by a direct oracle: '
-               'every short byte string and every valid encoding mutated at every position, in child processes under an address-space and time limit, must yield '
+               'count check, LZ without the size limit, Far2Long `as u16 + 34`); then (extension) the blob-store loaders (SortedUintVec, ZipOffset), read_vec with buffer growth from every loop state, the Huffman family over the C01 models (deserialisers for any HashMap order, decoders with output <= min(expected, 8 * input + 1)), rANS-64 decode and the FSE header over the C01 models, MmapVec / ZReorderMap open over the C19 models, Dictionary::deserialize, SimdLz77 decompress, hex_decode(&str), Base64 - each with an unbounded totality theorem and, where a code shape was repaired or a seeded regression is known, a refutation theorem with a concrete witness (SortedUintVec sample overflow, division before validation, read_vec reserving the declared length, with_capacity(output_length), zero-length Huffman code, FastDivision shift 64, SimdLz77 distance 0). The model is tied to the compiled code on every run by evaluating ~1500 generated '
+               'cases in Coq against what the implementation returned. All 147 parser cells - including those without a model - are decided by a direct oracle: '
+               'every short byte string, every valid encoding mutated at every position, and long inputs (64 KiB - 200 kB) behind a lying length field, in child processes under an address-space and time limit, must yield '
                'Ok or Err.',
  'level_note': 'Trusted: Coq kernel + vm_compute; the hand-written model (agreement with the code is checked on generated cases only); harness generators, the '
                'child-process protocol and RLIMIT_AS as the stand-in for unbounded allocation. Cells marked S-only carry no proof.',
  'technique': 'Coq proof (outcome monad with a compositional `good` rule, induction over fuelled parser loops, lia) + model/implementation differential check '
               'evaluated by vm_compute + crash oracle in resource-limited child processes',
- 'explanation': 'Unbounded Coq theorems about a Gallina restatement of 39 parser entry points + differential check of that model against the compiled code + a '
-                'crash/abort/timeout oracle over 122 parser cells in resource-limited child processes.'}
+ 'explanation': 'Unbounded Coq theorems about a Gallina restatement of the parsers behind 88 cells (reusing the C01 and C19 models) + differential check of that model against the compiled code + a '
+                'crash/abort/timeout oracle over 147 parser cells in resource-limited child processes.'}
